@@ -97,6 +97,18 @@ def oracle(ck):
                 ck.violation("alpha=%g: analytic density deviates from f^-alpha by %.2f dB at f=%g (between the corners %g and %g)" % (alpha, float(dB[j]), float(f[j]), g.fmin, g.fmax), inp, tag="powerlaw")
         if abs(float(g._scaling) - 1.0 / g.fmax ** (alpha / 2)) > 1e-12 * float(g._scaling):
             ck.violation("output scaling is not fmax_eff^(-alpha/2)", inp, tag="scaling")
+    # same band and exponent, different sampling rates, in one process (coefficients depend on fs)
+    for alpha in (1.0, 2.0, 0.5):
+        for fs in (250.0, 1000.0, 4000.0, 250.0):
+            g = NZ.alpha_noise(fs, 1.0, 100.0, alpha, init_filter=False, seed=5)
+            f = np.geomspace(3 * g.fmin, g.fmax / 3, 100)
+            dB = 10 * np.log10(analytic_density(g, f) * f ** alpha)
+            if np.max(np.abs(dB)) > 2.0:
+                ck.violation("alpha_noise(fs=%g, 1, 100, alpha=%g) built after generators with other sampling rates: density off by %.1f dB" % (fs, alpha, float(np.max(np.abs(dB)))), dict(fs=fs, alpha=alpha, sequence=[250.0, 1000.0, 4000.0, 250.0]), tag="fs-sequence")
+            a0, a1, b1 = g._calc_filter_coeffs(np.array([1.0]), np.array([2.0]))
+            den = fs + np.pi * 1.0
+            if abs(float(a0[0]) - (fs + 2 * np.pi) / den) > 1e-12 or abs(float(b1[0]) - (fs - np.pi) / den) > 1e-12:
+                ck.violation("_calc_filter_coeffs ignores the generator's own sampling rate (fs=%g)" % fs, dict(fs=fs, alpha=alpha), tag="fs-coeffs")
     ck.cov["powerlaw_worst_dB"] = worst
     # white noise: rms = sqrt(psd * fs), sample variance consistent
     for _ in range(4):
